@@ -3,7 +3,8 @@
    Model/MedianC18.v, Model/IndexesC18.v; specifications and checkers: Spec/SpecC18.v. *)
 From Coq Require Import ZArith List Bool Arith Sorted Permutation.
 From Centro Require Import Base.SortC18 Model.VecC18 Model.RankC18 Model.MedianC18 Model.IndexesC18 Spec.SpecC18
-  Proofs.RankC18Proofs Proofs.BinsC18Proofs Proofs.CheckC18 Proofs.MedianC18Proofs.
+  Proofs.RankC18Proofs Proofs.BinsC18Proofs Proofs.CheckC18 Proofs.MedianC18Proofs Proofs.ModeC18Proofs
+  Proofs.IndexesC18Proofs.
 Import ListNotations.
 Local Open Scope nat_scope.
 
@@ -53,3 +54,20 @@ Theorem C18_median_of_labels_spec : forall (image : list Z) (labels indices : li
   median_of_labels image labels indices = median_ref image labels indices.
 Proof. exact median_of_labels_correct. Qed.
 Print Assumptions C18_median_of_labels_spec.
+
+(* mode: the returned list is exactly the set of most frequent values (strictly increasing) *)
+Theorem C18_mode_spec : forall a : list Z, mode_spec a (mode a).
+Proof. exact mode_correct. Qed.
+Print Assumptions C18_mode_spec.
+
+Theorem C18_mode_check_sound : forall a res : list Z, mode_check a res = true -> mode_spec a res.
+Proof. exact mode_check_sound. Qed.
+Print Assumptions C18_mode_check_sound.
+
+(* Indexes(counts): length, fwd_idx, rev_idx and idx are the row-major enumeration of every
+   sub-array coordinate of every object (zero-count objects contribute nothing) *)
+Theorem C18_indexes_rowmajor : forall counts : list (list nat),
+  counts <> [] -> (forall row, In row counts -> length row = length (hd [] counts)) ->
+  indexes counts = indexes_ref counts.
+Proof. exact indexes_rowmajor. Qed.
+Print Assumptions C18_indexes_rowmajor.
